@@ -32,7 +32,7 @@ PROP = dict(
                      'lerp_shift lerpS_shift interpS_const2 interpS_ssr_left interpS_ssr_right interpS_srr_right interpS_srr_left '
                      'interpFrom_tr interpG_tr fold_tr'), BASE + GEN),
         obl('C07.geneos.model.sequence', LM,
-            names(L, 'side_R side_S side_N fold_fire fold_skip vregs_SS vregs_SR vregs_RS vregs_RR rowL_mem rowR_mem '
+            names(L, 'userAt_const userAt_lerp atoms_tables side_R side_S side_N fold_fire fold_skip vregs_SS vregs_SR vregs_RS vregs_RR rowL_mem rowR_mem '
                      'rcs_regions rcs_zone_left rcs_zone_fan rcs_zone_starL rcs_node_contact rcs_zone_starR rcs_zone_right '
                      'scr_regions scr_zone_left scr_zone_starL scr_zone_starR scr_zone_fan scr_zone_right '
                      'rcr_regions rcr_zone_left rcr_zone_fanL rcr_zone_starL rcr_zone_starR rcr_zone_fanR rcr_zone_right '
